@@ -6,6 +6,14 @@ import NmVerif.Lemmas.SelUtil
 -/
 namespace NmVerif.Index
 
+theorem i2u_nat (j : Nat) : i2u (j : Int) = j := by
+  have : ¬ ((j : Int) < 0) := by omega
+  simp [i2u, this]
+
+theorem i2u_of_nonneg (v : Int) (h : 0 ≤ v) : i2u v = v.toNat := by
+  have : ¬ (v < 0) := by omega
+  simp [i2u, this]
+
 theorem posPy_nat (n k : Nat) : posPy n (k : Int) = some k := by
   have : ¬ ((k : Int) < 0) := by omega
   simp [posPy, this]
